@@ -397,6 +397,8 @@ func (b *planBuilder) build(p TxPlan) builtTx {
 			e.SignChainID = 9000
 		case "wrongfrom":
 			e.DeclaredFrom = 1 + (p.From+1)%nEOA
+		case "noext":
+			e.NoExtOpt = true // a valid shape: the tx is expected to execute like any other
 		case "longfrom":
 			// declared sender = a (funded) 32-byte account ending in the signer's address; the tx carries the nonce that
 			// account would need, so that only the sender / signature binding stands between it and admission
@@ -415,7 +417,7 @@ func (b *planBuilder) build(p TxPlan) builtTx {
 		if err != nil {
 			panic(fmt.Sprintf("build eth tx: %v", err))
 		}
-		if p.NonceOff == 0 && p.Mut == "" && price.Sign() > 0 && p.CapOver >= 0 && p.Gas >= 21000 {
+		if p.NonceOff == 0 && (p.Mut == "" || p.Mut == "noext") && price.Sign() > 0 && p.CapOver >= 0 && p.Gas >= 21000 {
 			b.seqs[p.From] = seq + 1
 		}
 		return builtTx{Bytes: bz, Eth: tx, Spec: &e, Sender: chain.K(p.From).Addr, Plan: p}
